@@ -660,6 +660,7 @@ impl<Context: ServerContext> ApiDescription<Context> {
         let endpoint_tags = self
             .router
             .endpoints(Some(version))
+            .filter(|(_, _, endpoint)| endpoint.visible)
             .flat_map(|(_, _, endpoint)| {
                 endpoint
                     .tags
